@@ -6,8 +6,12 @@ from ..run import Prop
 from ..common import PropertyViolation, HarnessBound
 from .. import detsched, aocheck
 
-schedule_st = st.lists(st.tuples(st.integers(0, 7), st.one_of(st.integers(1, 12), st.integers(1, 200))),
-                       max_size=80)
+# a schedule is a list of (thread pick, run length) decisions: random segments, or a periodic
+# pattern (thread i mod k runs q lines) which reaches narrow check-then-act windows systematically
+schedule_st = st.one_of(
+  st.lists(st.tuples(st.integers(0, 7), st.one_of(st.integers(1, 12), st.integers(1, 200))), max_size=80),
+  st.lists(st.tuples(st.integers(0, 7), st.one_of(st.integers(1, 12), st.integers(1, 200))), max_size=80),
+  st.tuples(st.integers(1, 60), st.integers(2, 4)).map(lambda t: [(i % t[1], t[0]) for i in range(90)]))
 kinds_st = st.sampled_from(["fifo", "fifo", "lifo"])
 
 
